@@ -87,6 +87,20 @@ func (un *Unit) scopeFor(fr *Frame, cur, old *State, results []Val) *Scope {
 			}
 		}
 	}
+	// named local variables that live in memory cells (address-taken / captured): visible by their source name
+	for v, val := range fr.env {
+		if al, ok := v.(*ssa.Alloc); ok && al.Comment != "" && val.place != nil {
+			if _, clash := sc.vars[al.Comment]; !clash {
+				sc.vars[al.Comment] = SV{t: "", typ: al.Type().(*types.Pointer).Elem(), place: val.place}
+			}
+		}
+		if rg, ok := v.(*ssa.Range); ok {
+			sc.vars["$iter"] = SV{t: val.t, sort: "Int"}
+			if mt, ok := rg.X.Type().Underlying().(*types.Map); ok {
+				sc.vars["$iterKeySort"] = SV{t: un.u.sortOf(mt.Key()), sort: "sortname"}
+			}
+		}
+	}
 	if fr.fn == un.fn && un.selfRef != "" {
 		sc.vars["this"] = SV{t: un.selfRef, typ: fn.Signature}
 	}
@@ -766,7 +780,7 @@ func (un *Unit) evIndex(e *EIndex, sc *Scope) SV {
 		if isStructType(xt.Elem()) {
 			return SV{t: un.elemRef("(s_arr "+x.t+")", pos), typ: types.NewPointer(xt.Elem())}
 		}
-		return SV{t: sel(un.get(sc.cur, ec), "(s_arr "+x.t+")", pos), typ: xt.Elem()}
+		return SV{t: un.gat(sel(un.get(sc.cur, ec), "(s_arr "+x.t+")"), "(s_off "+x.t+")", i.t, un.u.sortOf(xt.Elem())), typ: xt.Elem()}
 	case *types.Map:
 		_, vv, _ := un.mapComps(xt)
 		return SV{t: sel(un.get(sc.cur, vv), x.t, i.t), typ: xt.Elem()}
@@ -865,6 +879,34 @@ func (un *Unit) evCall(e *ECall, sc *Scope) SV {
 			return SV{t: "(bv2nat " + x.t + ")", sort: "Int"}
 		}
 		return SV{t: x.t, typ: types.Typ[types.Int], sort: x.sortIn(un.u)}
+	case "visited":
+		// visited(k): the (single) map iteration of this function has already yielded key k
+		it, ok := sc.vars["$iter"]
+		ks, ok2 := sc.vars["$iterKeySort"]
+		if !ok || !ok2 {
+			return sc.fail("visited(): no map iteration in scope")
+		}
+		comp := "It_visited_" + sanitize(ks.t)
+		if _, known := un.compSort[comp]; !known {
+			return sc.fail("visited(): iterator state not materialised")
+		}
+		return boolSV(sel(un.get(sc.cur, comp), it.t, arg(0).t))
+	case "iterindex":
+		// iterindex(k): how many keys the map iteration had yielded before it yielded k
+		it, ok := sc.vars["$iter"]
+		ks, ok2 := sc.vars["$iterKeySort"]
+		if !ok || !ok2 {
+			return sc.fail("iterindex(): no map iteration in scope")
+		}
+		comp := un.comp("It_index_"+sanitize(ks.t), arraySort("Int", arraySort(ks.t, "Int")), "iter")
+		return intSV(sel(un.get(sc.cur, comp), it.t, arg(0).t))
+	case "itercount":
+		it, ok := sc.vars["$iter"]
+		if !ok {
+			return sc.fail("itercount(): no map iteration in scope")
+		}
+		un.comp("It_count", arraySort("Int", "Int"), "iter")
+		return intSV(sel(un.get(sc.cur, "It_count"), it.t))
 	case "payload":
 		// payload(x): the pointer stored in interface value x (0 for a typed nil pointer or a nil interface)
 		x := arg(0)
@@ -874,6 +916,10 @@ func (un *Unit) evCall(e *ECall, sc *Scope) SV {
 	case "fresh":
 		x := arg(0)
 		return boolSV("(>= " + un.refOf(x) + " " + un.next(sc.old) + ")")
+	case "valid":
+		// valid(x): x refers to an object that exists in the current state (or is nil)
+		x := arg(0)
+		return boolSV("(< " + un.refOf(x) + " " + un.next(sc.cur) + ")")
 	case "allocated":
 		x := arg(0)
 		return boolSV("(< " + un.refOf(x) + " " + un.next(sc.old) + ")")
